@@ -36,7 +36,7 @@ PROPS = {
             "collisions of the hash functions / the transcript and 2^-128 coincidences of the GF(2^128) check are treated as impossible",
             "Bob's choice vector is the first read of his random source in both rvole variants (verified on every run by the scripted source)",
         ],
-        "quick": {"scale": 1, "shards": 16, "timeout_s": 900},
+        "quick": {"scale": 1, "shards": 16, "timeout_s": 1800},
         "thorough": {"scale": 8, "shards": 16, "timeout_s": 3600},
     },
     "C02": {
@@ -490,7 +490,7 @@ PROPS["C06"] = {
         "mixed-epoch signing: any failure (constructor, run, aggregation, verification) is accepted; parties that send nothing for 4 s are cancelled without a verdict",
         "Mina signatures are judged by the library verifier only (no independent Poseidon implementation offline); vesta and BLS12-381 G1/G2 have no threshold signing protocol, their histories are judged by reconstruction only",
     ],
-    "quick": {"scale": 1, "shards": 16, "timeout_s": 900},
+    "quick": {"scale": 1, "shards": 16, "timeout_s": 1500},
     "thorough": {"scale": 7, "shards": 16, "timeout_s": 7200},
 }
 
